@@ -79,7 +79,16 @@ func TestHistories(t *testing.T) {
 					op.Function = ipmi.NetworkFunctionOEMReq
 					op.Enterprise = iana.Enterprise(rapid.Uint32Range(0, 0xFFFFFF).Draw(t, "enterprise"))
 				default:
-					op.Function = ipmi.NetworkFunction(2 * rapid.IntRange(0, 21).Draw(t, "netfn"))
+					// every even NetFn that is neither the group extension (0x2C) nor
+					// OEM/group (0x2E): 0x00..0x2A and the controller-specific 0x30..0x3E
+					nf := rapid.IntRange(0, 29).Draw(t, "netfn")
+					if nf >= 22 {
+						nf += 2
+					}
+					op.Function = ipmi.NetworkFunction(2 * nf)
+					if nf >= 24 {
+						ev.Label("custom-netfn-0x30-0x3e")
+					}
 				}
 				op.Command = ipmi.CommandNumber(rapid.IntRange(0xE0, 0xFF).Draw(t, "cmd"))
 				lun := byte(rapid.IntRange(0, 3).Draw(t, "lun"))
@@ -212,5 +221,5 @@ func TestCoverage(t *testing.T) {
 	for _, s := range hx.Suites12() {
 		need = append(need, "suite:"+s.String())
 	}
-	ev.RequireLabels(t, 1, need...)
+	ev.RequireLabels(t, 1, append(need, "custom-netfn-0x30-0x3e")...)
 }
